@@ -157,7 +157,9 @@ NodeIds(e) == { e.nodes[i].id : i \in DOMAIN e.nodes }
 IdOfIdx(e, i) == IF i = 0 THEN Null ELSE IF i \in DOMAIN e.nodes THEN e.nodes[i].id ELSE -1
 StrongFields(o) == IF o.k = 1 THEN SubSeq(o.f, 2, Len(o.f)) ELSE o.f
 
-GCEndOK(e) ==
+\* The walked graph is the model's reachable graph (used at every collection end and at the
+\* re-walk after a burst of allocations that follows a collection, PostChurn).
+GraphOK(e) ==
     LET R == Reach IN
     /\ G("C01:dangling-reference", Good(e))
     \* roots: same slots, same referents
@@ -185,6 +187,13 @@ GCEndOK(e) ==
     \* C02: the surviving objects do not overlap each other
     /\ G("C02:survivors-overlap", \A i, j \in DOMAIN e.nodes : i < j =>
             Disjoint(Ivl(e.nodes[i].a, e.nodes[i].sz), Ivl(e.nodes[j].a, e.nodes[j].sz)))
+    \* C07 (vo_bit builds): every surviving object is a valid object for MMTk
+    /\ G("C07:survivor-not-valid", \A i \in DOMAIN e.nodes :
+            "vo" \in DOMAIN e.nodes[i] => e.nodes[i].vo)
+
+GCEndOK(e) ==
+    LET R == Reach IN
+    /\ GraphOK(e)
     \* C07 (vo_bit builds): after an exhaustive collection MMTk enumerates exactly the survivors
     \* (reachable objects plus the objects of never-collected spaces), each once
     /\ G("C07:enumerate-invalid", "enum" \in DOMAIN e => e.enumBad = 0)
@@ -194,9 +203,13 @@ GCEndOK(e) ==
             R \cup DOMAIN imm \subseteq {e.enum[i] : i \in DOMAIN e.enum})
     /\ G("C07:enumerate-dead", "enum" \in DOMAIN e /\ aux.exh =>
             {e.enum[i] : i \in DOMAIN e.enum} \subseteq R \cup DOMAIN imm)
-    \* C07 (vo_bit builds): every surviving object is a valid object for MMTk
-    /\ G("C07:survivor-not-valid", \A i \in DOMAIN e.nodes :
-            "vo" \in DOMAIN e.nodes[i] => e.nodes[i].vo)
+
+\* Re-walk after the allocation burst that follows a collection: memory reclaimed by the collection
+\* has been reused, so a reference that still points at a stale copy now reads foreign data.
+\* Nothing may have moved since the collection.
+PostChurnOK(e) ==
+    /\ GraphOK(e)
+    /\ G("C01:moved-outside-collection", \A i \in DOMAIN e.nodes : e.nodes[i].a = objs[e.nodes[i].id].a)
 
 DoGCEnd(e) ==
     LET keep == NodeIds(e) \cup DOMAIN imm \cup (ext.keep \cap DOMAIN objs)
@@ -283,6 +296,7 @@ Step(e) ==
       [] e.ev = "Pin"     -> DoPin(e)
       [] e.ev = "Unpin"   -> DoUnpin(e)
       [] e.ev = "GCEnd"   -> IF GCEndOK(e) THEN DoGCEnd(e) ELSE FailStep
+      [] e.ev = "PostChurn" -> IF PostChurnOK(e) THEN Skip ELSE FailStep
       [] e.ev = "Crash"   -> Fail("crash") /\ FailStep
       [] OTHER            -> Skip
 
